@@ -68,7 +68,7 @@ def worker_main(argv) -> int:
     check_name, case_file, out_file = argv[:3]
     mod = importlib.import_module(f"hv.checks.{check_name}")
     cases = json.load(open(case_file))
-    per_case = float(os.environ.get("HV_CASE_TIMEOUT", "60"))
+    per_case = float(os.environ.get("HV_CASE_TIMEOUT", "120"))
     results = []
 
     def on_alarm(signum, frame):
@@ -85,10 +85,25 @@ def worker_main(argv) -> int:
                 signal.setitimer(signal.ITIMER_REAL, 0)
         except WallTimeout:
             res = {"viol": [], "counters": {}, "inconclusive": f"wall-clock {per_case}s exceeded"}
+        except Exception as exc:
+            res = None
+            e = exc
+            # a Livelock verdict may arrive wrapped in exception groups
+            stack = [exc]
+            while stack and res is None:
+                x = stack.pop()
+                if type(x).__name__ == "Livelock":
+                    res = {"viol": [{"key": "livelock", "what": str(x), "detail": {"case": case}}], "counters": {}}
+                stack.extend(getattr(x, "exceptions", []) or [])
+            if res is None:
+                res = {"viol": [], "counters": {}, "error": "".join(traceback.format_exception(e))[-3000:]}
         except BaseException as exc:  # harness error
             if isinstance(exc, KeyboardInterrupt):
                 raise
-            res = {"viol": [], "counters": {}, "error": "".join(traceback.format_exception(exc))[-3000:]}
+            if type(exc).__name__ == "Livelock":
+                res = {"viol": [{"key": "livelock", "what": str(exc), "detail": {"case": case}}], "counters": {}}
+            else:
+                res = {"viol": [], "counters": {}, "error": "".join(traceback.format_exception(exc))[-3000:]}
         res["case"] = case
         res["wall"] = time.time() - t0
         sigs = res.pop("sigs", [])
